@@ -1055,7 +1055,11 @@ func c15mutate(r *rand.Rand, m map[string]string) string {
 		return fmt.Sprintf("truncate-key %q->%q", k, nk)
 	case 4:
 		v := m[k]
-		if len(v) > 0 {
+		if i := strings.LastIndexByte(v, '/'); i >= 0 {
+			// a directory below the worker's scratch directory: only its last component is cut, so that no
+			// mutated configuration can make the library create files outside the scratch directory
+			m[k] = v[:i+1+r.IntN(len(v)-i)]
+		} else if len(v) > 0 {
 			m[k] = v[:r.IntN(len(v))]
 		}
 		return fmt.Sprintf("truncate-value %s", k)
